@@ -373,19 +373,28 @@ class Program(BlockBase):  # R201
 
         """
         # pylint: disable=unused-argument
+        # Remember which symbol tables exist (and which scope is current)
+        # so that a parse that fails leaves none of its own behind.
+        snapshot = SYMBOL_TABLES.snapshot()
         try:
             return Base.__new__(cls, string, _deepcopy=_deepcopy)
         except NoMatchError:
+            SYMBOL_TABLES.rollback(snapshot)
             # At the moment there is no useful information provided by
             # NoMatchError so we pass on an empty string.
             raise FortranSyntaxError(string, "")
         except InternalSyntaxError as excinfo:
+            SYMBOL_TABLES.rollback(snapshot)
             # InternalSyntaxError is used when a syntax error has been
             # found in a rule that does not have access to the reader
             # object. This is then re-raised here as a
             # FortranSyntaxError, adding the reader object (which
             # provides line number information).
             raise FortranSyntaxError(string, excinfo)
+        except BaseException:
+            # FortranSyntaxError, SystemExit (reader.error), ...
+            SYMBOL_TABLES.rollback(snapshot)
+            raise
 
     def __getnewargs__(self):
         """Method to dictate the values passed to the __new__() method upon
